@@ -957,7 +957,7 @@ def build_case(ch, tier, force=None):
             gnu = {'form': 'ld-empty', 'symoffset': 1, 'nbuckets': 1, 'bloom_size': 1, 'bloom_shift': 0}
         else:
             symoffset = ch.choice([1, 1, n, ch.int(1, n)])
-            nbuckets = ch.choice([1, 2, 3, 7, ch.int(1, 16)])
+            nbuckets = f.get('nbuckets') or ch.choice([1, 2, 3, 7, ch.int(1, 16)])
             head, tail = names[:symoffset], names[symoffset:]
             tail.sort(key=lambda nm: W.gnu_hash(nm.encode('utf-8')) % nbuckets)
             if ch.bool(0.3):
@@ -1223,6 +1223,12 @@ def sweep(tier):
                 k += 1
                 cases.append(build_case(RndChooser(9000 + k), tier, dict(fo, cls=cls, le=le, flavor='generic', gnu_form='ld-empty', nsyms=4 + j,
                                                                          strings=True)))
+            # chains far longer than any linker makes them (one or two buckets for 70..260 symbols): a walk that reads the chain in blocks
+            # crosses several block boundaries
+            for j, (ns, nb) in enumerate(((70, 1), (131, 1), (260, 2))):
+                k += 1
+                cases.append(build_case(RndChooser(9000 + k), tier, {'cls': cls, 'le': le, 'flavor': 'generic', 'hash': ('gnu', 'both', 'gnu')[j], 'gnu_form': 'std',
+                                                                     'nsyms': ns, 'nbuckets': nb, 'strings': True, 'relocs': ()}))
     for f in corpus_files():
         cases.append({'k': 'corpus', 'file': f})
     return cases
